@@ -22,4 +22,6 @@ OBLIGATIONS = [
     imported("C11", "update_arith_contract_input_fits_buffer", "blake2b_update_buffers_input_that_fits"),
     imported("C11", "update_arith_contract_one_block_completed", "blake2b_update_compresses_exactly_one_completed_block"),
     imported("C11", "final_contract", "blake2b_final_pads_and_flags_the_last_block"),
+    # SuperscalarHash program generation (specification 6.3): program bound and termination rule of the generator's control skeleton (suite C09)
+    imported("C09", "generator_skeleton_program_bounds_termination_rule_and_termination", "superscalar_generator_stops_as_specified"),
 ]
